@@ -123,10 +123,13 @@ impl SearchRange {
         let search_range = (2.0_f64.powi(entry_selector as i32) * item_size as f64) as usize;
         // The result doesn't really make sense with 0 tables but ... let's at least not fail
         let range_shift = (n_items * item_size).saturating_sub(search_range);
+        // These fields only speed up a binary search and readers ignore them; a value
+        // that does not fit in 16 bits (4096 or more tables in a font) saturates
+        // instead of panicking.
         SearchRange {
-            search_range: search_range.try_into().unwrap(),
-            entry_selector: entry_selector.try_into().unwrap(),
-            range_shift: range_shift.try_into().unwrap(),
+            search_range: search_range.try_into().unwrap_or(u16::MAX),
+            entry_selector: entry_selector.try_into().unwrap_or(u16::MAX),
+            range_shift: range_shift.try_into().unwrap_or(u16::MAX),
         }
     }
 }
@@ -154,5 +157,19 @@ mod tests {
             (foo.search_range, foo.entry_selector, foo.range_shift),
             (0, 0, 0)
         )
+    }
+
+    #[test]
+    fn search_range_saturates() {
+        // 4096 table records of 16 bytes: 65536 does not fit in the u16 field
+        let big = SearchRange::compute(4096, 16);
+        assert_eq!((big.search_range, big.entry_selector), (u16::MAX, 12));
+        assert_eq!(big.range_shift, 0);
+        let last_ok = SearchRange::compute(4095, 16);
+        assert_eq!(
+            (last_ok.search_range, last_ok.entry_selector, last_ok.range_shift),
+            (32768, 11, 32752)
+        );
+        assert_eq!(SearchRange::compute(65535, 16).range_shift, u16::MAX);
     }
 }
